@@ -14,6 +14,7 @@
 # limitations under the License.
 
 import abc
+import numbers
 
 from typing import Optional, List, Type, Dict, Callable, Tuple, Union
 
@@ -490,13 +491,17 @@ class Simulator(Computer, _mixins.CodeMixin):
                 if any measurement is specified in `instructions`.
         """
 
-        is_shots_positive_integer = isinstance(shots, int) and shots > 0
+        # NOTE: `numbers.Integral` also covers the NumPy integer types.
+        is_shots_positive_integer = isinstance(shots, numbers.Integral) and shots > 0
 
         if not is_shots_positive_integer and shots is not None:
             raise InvalidParameter(
                 f"The number of shots should be a positive integer or 'None': "
                 f"shots={shots}."
             )
+
+        if shots is not None:
+            shots = int(shots)
 
         d = self._try_to_infer_d_from_instructions(instructions)
 
